@@ -201,3 +201,114 @@ Proof.
   destruct (go_derived_option_sets_proof e f o st fs old (AVal y) y D N S EF (plain_arg_value e _ _ y B)) as [fs' [G [G1 [G2 _]]]].
   exists fs'. repeat split; auto. rewrite G1. f_equal. unfold maybe_ptr. destruct (as_pointer (f_type f)); subst; reflexivity.
 Qed.
+
+(* ---------- FromBuilder on a builder as FromAST derives it ---------- *)
+Definition derived_mapping (e : benv) (b : builder) (f : field) (o : boption) : convmapping :=
+  let p := [mkPathItem (f_name f) None (f_type f) None false] in
+  mkConvMapping None "" ""
+    [mkOptMapping o (guard_for_assignments (input_root b) (op_assignments o))
+                  [mkAMapping (argument_for_type arg_fuel e "arg1" (input_root b ++ p) (f_type f)) []]].
+
+Definition key_of_field (f : field) : akey := (f_name f, DNil, []).
+
+Lemma generated_false gp (a : assignment) :
+  (forall k, In k gp -> fst (fst k) <> fst (fst (assignment_key a))) -> generated gp a = false.
+Proof.
+  unfold generated. intros H. induction gp as [|k r IH]; simpl; auto.
+  rewrite IH by (intros k' I; apply H; right; exact I). rewrite orb_false_r.
+  destruct (assignment_key a) as [[pa ca] ea] eqn:EA. destruct k as [[pk ck] ek]. simpl.
+  specialize (H (pk, ck, ek) (or_introl eq_refl)). simpl in H.
+  destruct (seqb pa pk) eqn:E; auto. apply seqb_eq in E. subst. contradiction.
+Qed.
+
+Lemma convert_option_derived e b gp f o :
+  struct_field_to_option f = Ok o ->
+  (forall k, In k gp -> fst (fst k) <> f_name f) ->
+  convert_option e b gp o = (derived_mapping e b f o, gp ++ [key_of_field f]).
+Proof.
+  intros D G. destruct (derived_option_shape _ _ D) as [cs ->].
+  set (a := mkAssignment [mkPathItem (f_name f) None (f_type f) None false]
+                         (AValue (Some (mkArg (f_name f) (f_type f))) DNil None) "direct" cs []).
+  assert (NG : generated gp a = false).
+  { apply generated_false. intros k I. simpl. apply G. exact I. }
+  unfold convert_option. cbn [op_assignments filter]. rewrite NG. cbn [negb].
+  unfold is_append, is_index. cbn [as_method]. cbn [seqb String.eqb Ascii.eqb Bool.eqb andb].
+  cbn [cm_repeat_for].
+  unfold mapping_for_option. cbn [op_assignments filter]. rewrite NG. cbn [negb].
+  cbn [fold_left has_const as_value dyn_is_nil negb cm_repeat_for]. 
+  unfold from_disjunction_struct, envelope_of. cbn [as_value].
+  unfold derived_mapping, key_of_field, assignment_key. cbn [as_value as_path op_assignments].
+  unfold path_last_type, path_string. cbn [List.last pi_type map pi_id String.concat].
+  reflexivity.
+Qed.
+
+Fixpoint derived_mappings (e : benv) (b : builder) (fs : list field) (opts : list boption) : list convmapping :=
+  match fs, opts with
+  | f :: fr, o :: r => derived_mapping e b f o :: derived_mappings e b fr r
+  | _, _ => []
+  end.
+
+Lemma from_builder_fold_derived e b : forall fs opts ms0 gp0,
+  Forall2 (fun f o => struct_field_to_option f = Ok o) fs opts ->
+  NoDup (map f_name fs) ->
+  (forall k, In k gp0 -> ~ In (fst (fst k)) (map f_name fs)) ->
+  fold_left (fun acc o => let '(ms, gp) := acc in let '(m, gp') := convert_option e b gp o in (ms ++ [m], gp'))
+            opts (ms0, gp0) = (ms0 ++ derived_mappings e b fs opts, gp0 ++ map key_of_field fs).
+Proof.
+  intros fs opts ms0 gp0 F. revert ms0 gp0. induction F as [|f o fs opts D _ IH]; intros ms0 gp0 ND G.
+  - simpl. rewrite !app_nil_r. reflexivity.
+  - apply NoDup_cons_iff in ND. destruct ND as [Nh Nt]. simpl.
+    rewrite (convert_option_derived e b gp0 f o D) by (intros k I E; apply (G k I); left; auto).
+    rewrite IH; auto.
+    + rewrite <- !app_assoc. reflexivity.
+    + intros k I. apply in_app_or in I. destruct I as [I|[<-|[]]].
+      * intro X. apply (G k I). right. exact X.
+      * simpl. exact Nh.
+Qed.
+
+(* the converter of such a builder: one mapping per option, in option order, each guarded by the guards of its
+   single assignment and carrying one argument for the field *)
+Theorem derived_converter_shape_proof e b fs :
+  Forall2 (fun f o => struct_field_to_option f = Ok o) fs (b_options b) -> NoDup (map f_name fs) ->
+  cv_mappings (from_builder e b) = derived_mappings e b fs (b_options b).
+Proof.
+  intros F ND. unfold from_builder.
+  destruct (fold_left _ (b_options b) ([], [])) as [ms gp] eqn:E.
+  assert (X : (ms, gp) = ([] ++ derived_mappings e b fs (b_options b), [] ++ map key_of_field fs)).
+  { rewrite <- E. apply (from_builder_fold_derived e b fs (b_options b) [] [] F ND). intros k []. }
+  inversion X; subst. simpl. clear E X ND.
+  induction F as [|f o fs' opts D _ IH]; simpl; auto. f_equal. exact IH.
+Qed.
+
+(* the options FromAST derives are the image of a sub-sequence of the struct's fields *)
+Lemma role_opts_fields fs roles : Forall2 role_ok fs roles ->
+  exists fs', Forall2 (fun f o => struct_field_to_option f = Ok o) fs' (role_opts roles) /\ subseq fs' fs.
+Proof.
+  induction 1 as [|f r fs rs Hr _ [fs' [A B]]].
+  - exists []. split; constructor.
+  - unfold role_opts. simpl. fold (role_opts rs). destruct r; simpl.
+    + exists fs'. split; auto. constructor. exact B.
+    + exists fs'. split; auto. constructor. exact B.
+    + exists (f :: fs'). split; constructor; auto.
+Qed.
+
+Lemma subseq_map {A B} (g : A -> B) (a l : list A) : subseq a l -> subseq (map g a) (map g l).
+Proof. induction 1; simpl; constructor; auto. Qed.
+
+Theorem from_ast_converter_shape_proof ss bs b e :
+  from_ast ss = Ok bs -> In b bs ->
+  (forall a dh fs, resolve_to_type (res_fuel ss) ss (o_type (b_for b)) = Ok (TStruct a dh fs) -> NoDup (map f_name fs)) ->
+  exists fs', Forall2 (fun f o => struct_field_to_option f = Ok o) fs' (b_options b) /\
+              cv_mappings (from_builder e b) = derived_mappings e b fs' (b_options b).
+Proof.
+  intros H I HS. destruct (from_ast_in _ _ _ H I) as [s [ko [_ [_ D]]]].
+  unfold struct_object_to_builder in D.
+  destruct (resolve_to_type (res_fuel ss) ss (o_type (snd ko))) as [rt| | |] eqn:R; simpl in D; try discriminate.
+  destruct rt; try discriminate.
+  destruct (mapM (field_role_of (res_fuel ss) ss) fs) as [roles| | |] eqn:EM; simpl in D; try discriminate.
+  inversion D; subst. clear D. simpl in HS. specialize (HS _ _ _ R).
+  destruct (role_opts_fields _ _ (roles_ok _ _ _ _ EM)) as [fs' [F S]].
+  exists fs'. split; [exact F|].
+  apply derived_converter_shape_proof; [exact F|].
+  eapply subseq_nodup; [apply subseq_map; exact S|exact HS].
+Qed.
